@@ -236,3 +236,27 @@ Proof.
     intros e He. apply Hincl in He. cbn in He. destruct He as [<-|[<-|[<-|[<-|[]]]]]; (split; [vm_compute; tauto|split; vm_compute; reflexivity]).
 Qed.
 Print Assumptions C03_width_bound_premises_satisfiable.
+
+(* ---- audit additions (agent-walk, audit/props_C03_C05_C07_C08.md): instances of hypotheses no stated Example reached ---- *)
+From FP Require Import AuditExamples.
+(* (2) C03_search_returns_least_feasible_k: a feasibility predicate that is false below 2, the status list of an exact solver from lb = 1,
+   ub = 4 (exclusive); the search computes Solved 2 *)
+Example C03_search_premises_satisfiable :
+  let feasible := fun k => (2 <=? k)%nat in
+  let sts := map (fun k => mkraw (if feasible k then Optimal else Infeasible) false) (seq 1 3) in
+  (forall i, (i < 4 - 1)%nat -> exists x, nth_error sts i = Some x /\ status_of x = if feasible (1 + i)%nat then Optimal else Infeasible) /\
+  feasible 2%nat = true /\ (forall k, (k < 2)%nat -> feasible k = false) /\ (1 <= 2 < 4)%nat /\
+  so_res (mpc_solve true 1 4 sts) = Solved 2%nat.
+Proof. exact ex_search_premises. Qed.
+Print Assumptions C03_search_premises_satisfiable.
+
+(* (11) C03_verified_oracle_returns_the_minimum: all five hypotheses hold for the diamond of PathEncExample.v (integer flows 2 / 3, one
+   subpath constraint) and the oracle answers Some 2 -- the value (8)'s example proves by hand *)
+Example C03_oracle_premises_satisfiable :
+  PathEncProofs.wf_graph (p_graph (f_base (exI 0))) /\
+  (forall u v, In (u, v) (g_edges (p_graph (f_base (exI 0)))) -> (exRank u < exRank v)%nat) /\
+  f_int (exI 0) = true /\
+  (forall e, In e (need_of (exI 0)) -> is_int (lookup_q e (f_flow (exI 0)) 0%Q) /\ (0 <= lookup_q e (f_flow (exI 0)) 0 <= f_wmax (exI 0))%Q) /\
+  (0 <= f_wmax (exI 0))%Q /\ min_fd (exI 0) 3 = Some 2%nat.
+Proof. exact ex_oracle_premises. Qed.
+Print Assumptions C03_oracle_premises_satisfiable.
